@@ -57,7 +57,7 @@ def run(ctx, prefixes, mc=True):
                      consts={"MaxStarts": "2"} if q else None)
         ctx.log("TLC SharedInformers/MC (2 monitors over 2 factory indices): %d generated / %d distinct states, %.0fs" % (r["generated"], r["distinct"], r["wall_s"]))
     binary = vlib.go_build(ctx, "shared")
-    behs = gen(ctx, ctx.pick(200, 2400), 50)
+    behs = gen(ctx, ctx.pick(140, 2400), 50)
     cases = [{"steps": b} for b in behs]
     rows = vlib.run_sharded(ctx, binary, cases, lambda i, o: ["-in", i, "-out", o], shards=8, timeout=1800, tag="shared")
     quiet = shared = 0
